@@ -72,6 +72,20 @@ def _grant_freeze(ctx, rid, rel, acls, fx):
                ce[0].line if ce else 0)
 
 
+def _response_routing(ctx, rid, rel, acls, fx):
+    # S->M valid/ready gated by grant == i of the channel's own round-robin
+    gated = [a for a in fx.find(domain="comb") if a.t == "getattr(getattr(masters[i], channel), name)"]
+    vr = [a for a in gated if ("name in ['valid', 'ready']", True) in a.pyguards]
+    ctx.ob(rid, rel, acls, "S->M valid/ready wiring:present", len(vr) == 1, f"{len(vr)} gated drivers", 0)
+    for a in vr:
+        ats = B.atoms(a.eff())
+        r = _rr_of_channel(ats[0].split(".grant == ")[0]) if len(ats) == 1 and ".grant == i" in ats[0] else None
+        ok = r is not None and r[0] == {"aw", "w", "b"} and r[1] == "self.rr_write" and r[2] == "self.rr_read" and \
+            a.v == "getattr(getattr(target, channel), name)"
+        ctx.ob(rid, rel, acls, "S->M valid/ready to master i only under grant == i of the channel's round-robin", ok,
+               "" if ok else f"under {a.gtext()}: a response/ready reaches a master that does not own the channel", a.line)
+
+
 def arbiter_grant_freeze(ctx, rid):
     """The arbiters' grant is frozen while any channel of the target is valid, responses included (shared with C11: the watchdog's
     error response is a b/r.valid the lock counters never counted -- when the request's address beat was not accepted, e.g. W before
@@ -79,6 +93,7 @@ def arbiter_grant_freeze(ctx, rid):
     master and that master's own request is swallowed)."""
     for rel, ccls, acls, dcls, full in FAMILIES:
         _grant_freeze(ctx, rid, rel, acls, fx_of(ctx, rel, acls))
+        _response_routing(ctx, rid, rel, acls, fx_of(ctx, rel, acls))
 
 
 def run(ctx):
@@ -177,17 +192,7 @@ def run(ctx):
             B.equivalent(B.from_expr(kw(rl).get("response", "0")), B.from_expr(want_resp))
         ctx.ob("L2", rel, acls, "read lock counts ar handshakes against " + ("last-qualified " if full else "") + "r handshakes", ok,
                "" if ok else f"{kw(rl)}: " + ("a burst read releases the grant after its first beat" if full else "read lock mis-counted"))
-        # S->M valid/ready gated by grant == i of the channel's own round-robin
-        gated = [a for a in fx.find(domain="comb") if a.t == "getattr(getattr(masters[i], channel), name)"]
-        vr = [a for a in gated if ("name in ['valid', 'ready']", True) in a.pyguards]
-        ctx.ob("L2", rel, acls, "S->M valid/ready wiring:present", len(vr) == 1, f"{len(vr)} gated drivers", 0)
-        for a in vr:
-            ats = B.atoms(a.eff())
-            r = _rr_of_channel(ats[0].split(".grant == ")[0]) if len(ats) == 1 and ".grant == i" in ats[0] else None
-            ok = r is not None and r[0] == {"aw", "w", "b"} and r[1] == "self.rr_write" and r[2] == "self.rr_read" and \
-                a.v == "getattr(getattr(target, channel), name)"
-            ctx.ob("L2", rel, acls, "S->M valid/ready to master i only under grant == i of the channel's round-robin", ok,
-                   "" if ok else f"under {a.gtext()}: a response/ready reaches a master that does not own the channel", a.line)
+        _response_routing(ctx, "L2", rel, acls, fx)
         m2s = [a for a in fx.find(domain="comb") if a.t == "getattr(getattr(target, channel), name)"]
         ok = len(m2s) == 1 and not m2s[0].guards
         if ok:
